@@ -5,6 +5,7 @@ boundary values of every fixed-width column (coordinates, B-factor,
 occupancy, charge, ids incl. 0 / negative / wrap-around / hybrid-36 range,
 name lengths), plus NaN and out-of-range values that must be refused, and
 CONECT round trips of all bond sets on 3 atoms."""
+import io
 import itertools
 import sys
 import warnings
@@ -149,6 +150,57 @@ for m in (1, 2, -1):
 
 
 # CONECT: all bond sets on 3 atoms
+def box_contract(cell, models):
+    """the box comes back to CRYST1 precision (lengths 0.001, angles 0.01 degree): the box is built here from the
+    cell by the textbook formula in float64 (not by the library), written, read, and compared as a unit cell"""
+    la, lb, lc, al, be, ga = cell
+    ar, br, gr = np.deg2rad([al, be, ga])
+    bx, by = lb * np.cos(gr), lb * np.sin(gr)
+    cx = lc * np.cos(br)
+    cy = lc * (np.cos(ar) - np.cos(br) * np.cos(gr)) / np.sin(gr)
+    cz = np.sqrt(lc * lc - cx * cx - cy * cy)
+    box = np.array([[la, 0, 0], [bx, by, 0], [cx, cy, cz]], dtype=np.float32)
+    a = make(2, models=models)
+    a.box = box if models is None else np.stack([box] * models)
+    f = pdb.PDBFile()
+    f.set_structure(a)
+    s = io.StringIO()
+    f.write(s)
+    cryst = [l for l in s.getvalue().split("\n") if l.startswith("CRYST1")]
+    if len(cryst) != 1:
+        return f"{len(cryst)} CRYST1 records"
+    line = cryst[0]
+    try:
+        written = [float(line[6:15]), float(line[15:24]), float(line[24:33]), float(line[33:40]), float(line[40:47]), float(line[47:54])]
+    except ValueError:
+        return f"CRYST1 fields not in their columns: {line!r}"
+    for w, e, tol, name in zip(written, cell, (6e-4,) * 3 + (6e-3,) * 3, ("a", "b", "c", "alpha", "beta", "gamma")):
+        if abs(w - e) > tol + 1e-6 * abs(e):
+            return f"CRYST1 {name} written as {w}, the box has {e}: {line!r}"
+    g = pdb.PDBFile.read(io.StringIO(s.getvalue()))
+    b = g.get_structure(model=1 if models is None else None)
+    if b.box is None:
+        return "no box read back"
+    boxes = [b.box] if models is None else list(b.box)
+    if len(boxes) != (models or 1):
+        return f"{len(boxes)} boxes for {models} models"
+    for bb in boxes:
+        u = struc.unitcell_from_vectors(bb)
+        got = [float(u[0]), float(u[1]), float(u[2])] + [float(np.rad2deg(x)) for x in u[3:]]
+        for gv, e, tol, name in zip(got, cell, (1.1e-3,) * 3 + (1.1e-2,) * 3, ("a", "b", "c", "alpha", "beta", "gamma")):
+            if abs(gv - e) > tol + 2e-6 * abs(e):
+                return f"{name} = {e} (CRYST1 {line[6:54]!r}) read back as {gv:.4f}"
+    return None
+
+
+CELLS = [(50, 60, 70, 90, 90, 90), (50, 60, 70, 90, 90.12, 90), (50, 50, 50, 90, 90.01, 90), (50, 50, 50, 89.99, 90, 90.02), (10, 10, 200, 90, 90, 90.1),
+         (10, 10, 200, 90, 90, 90.05), (200, 10, 10, 90.03, 90, 90), (5, 300, 8, 90, 89.9, 90), (30, 30, 50, 90, 90, 120), (30.5, 40.25, 50.125, 80, 100, 110),
+         (999.999, 999.999, 999.999, 90, 90, 90), (1.5, 2.5, 3.5, 60, 70, 80), (78.9, 78.9, 37.8, 90, 90, 90.5), (40, 41, 42, 91, 92, 93)]
+for cell in CELLS:
+    for models in (None, 2):
+        R.check("box comes back to CRYST1 precision", "box", {"cell": list(cell), "models": models}, lambda cell=cell, models=models: box_contract(cell, models))
+
+
 def conect(bonds):
     a = make(n=3, coord=[[0, 0, 0], [1.5, 0, 0], [3, 0, 0]])
     a.bonds = struc.BondList(3, np.array(bonds, dtype=int).reshape(-1, 3) if bonds else None)
